@@ -144,6 +144,11 @@ func (c *Config) Get(format string) (info *Info, err error) {
 	if err = mergo.Merge(info, c.Info, mergo.WithOverride); err != nil {
 		return nil, fmt.Errorf("failed to merge config into info: %w", err)
 	}
+	// the copy above shares pointers with the config: give it its own key ids
+	// so that merging an override cannot write through into the config
+	info.Deb.Signature.KeyID = cloneString(info.Deb.Signature.KeyID)
+	info.RPM.Signature.KeyID = cloneString(info.RPM.Signature.KeyID)
+	info.APK.Signature.KeyID = cloneString(info.APK.Signature.KeyID)
 	override, ok := c.Overrides[format]
 	if !ok {
 		// no overrides
@@ -161,6 +166,14 @@ func (c *Config) Get(format string) (info *Info, err error) {
 	}
 	info.Contents = contents
 	return info, nil
+}
+
+func cloneString(s *string) *string {
+	if s == nil {
+		return nil
+	}
+	v := *s
+	return &v
 }
 
 // Validate ensures that the config is well typed.
